@@ -62,7 +62,7 @@ def alphabet_size_probe(c):
 
 def initial(rng, n, cls):
     """initial structure of a class; always with a cell (replication and replacement need one)"""
-    common = dict(tag="S", cell=["ortho", "tri"][int(rng.integers(2))], scale=7.0)
+    common = dict(tag="S", cell=["ortho", "tri", "tiny_tilt"][int(rng.integers(3))], scale=7.0)
     if cls == "tabled":
         a = atomsgen.gen_atoms(rng, n, kinds=_kinds(rng, n), tables={k: True for k in atomsgen.KNAMES}, pair=True, extras={}, **common)
     elif cls == "untabled":
@@ -344,6 +344,13 @@ def file_check(b, ctx, st, flagged, w, what):
         return
     bad = AM.compare(AM.resolve(c, ids=oid if len(c) == len(oid) else None), mb, check_pos=False, fields=("el", "label", "mass", "pair", "charge", "group"), term_extras=False, mass_tol=1e-6)
     report(ctx, st, bad, flagged, w, what + " read back from its LAMMPS data file")
+    # "reads back to the same structure": cell and coordinates to the printed precision (6 decimals)
+    if b.cell is not None and len(c) == len(b):
+        if c.cell is None or np.abs(np.array(c.cell, float) - np.array(b.cell, float)).max() > 0.5e-6 + 1e-9:
+            ctx.fail("%s: cell read back from the LAMMPS data file is %s, the structure's is %s" % (what, None if c.cell is None else np.array(c.cell, float).tolist(), np.array(b.cell, float).tolist()), witness=w)
+        elif len(b) and np.abs(np.asarray(c.positions, float) - np.asarray(b.positions, float)).max() > 0.5e-6 + 1e-9:
+            ctx.fail("%s: positions read back from the LAMMPS data file differ by %.3g" % (what, np.abs(np.asarray(c.positions, float) - np.asarray(b.positions, float)).max()), witness=w)
+        st.count("cells_and_positions_read_back")
     st.count("files_read_back")
 
 
